@@ -533,6 +533,10 @@ void ProtoRun::do_op(const Op &op) {
     } else if (op.k == "close") {
         MxEndpoint &e = w.ep(dir);
         if (e.alive()) { e.app_close(); after_event(); w.collect(DIR_C2S); w.collect(DIR_S2C); }
+    } else if (op.k == "timer") {
+        // DTLS application resend timer fires on one endpoint (alive or dead): with an empty output buffer the library rebuilds its last flight
+        MxEndpoint &e = w.ep(dir);
+        if (pc.dtls() && e.alive()) { vsim_clock_advance_ms(1000); if (e.dtls_timer() > 0) { e.wants_send = true; obs.counters["timer_resend"]++; } obs.counters["timer_fired"]++; after_event(); w.collect(DIR_C2S); w.collect(DIR_S2C); after_event(); }
     } else if (op.k == "advance") {
         vsim_clock_advance_ms(op.a);
     } else if (op.k == "ptmut") {
